@@ -11,11 +11,12 @@ content `t` of the target, every order the datastore lists/streams the entries i
 * `export_import_id_partial` — well-formed pins without origins; `export_import_id_full`
   (all well-formed pins) is kept as a `def` and refuted: `export_import_id_full_fails`
   (a pin with origins cannot be decoded from the JSON stream — known finding K01c);
-* `export_import_crdt_empty_fails` — the crdt manager panics on an empty stream (K14a).
+* `export_import_crdt_empty_ok`, `importStateCrdt_eq`, `export_import_crdt_id_partial` — the crdt manager
+  (after 2096d62: no Commit when nothing was added) behaves as the raft manager on every stream.
 Rotation: `rotate_spec` (every retention ≥ 1, every pre-existing folder set, every
 operation sequence, every observation window), `never_more_than_n`.
 Peerstore: `peerstore_roundtrip`, `bad_lines_skipped_partial` (files without a line of 64 KiB or
-more; `bad_lines_skipped_full_fails`: known finding K14b).
+more; `bad_lines_skipped_full_fails`: known finding K19).
 -/
 set_option linter.unusedSimpArgs false
 namespace CV.C14
@@ -71,10 +72,28 @@ example : wfPin { cid := 3, ptype := 16, allocs := [1, 0], depth := 1, ref := so
                   mode := 1, shard := 5, ualloc := [3], expire := 1600000000, pmeta := [(1, 2), (3, 0)],
                   pupdate := some 7, origins := [] } = true := by decide
 
-/-- crdt: importing the export of the empty pinset fails (panic in Commit), known finding K14a -/
-theorem export_import_crdt_empty_fails (t : List Pin) :
-    ∃ js, exportStream (fromList []) = some js ∧ (importStateCrdt (fromList t) js false).1 = .err :=
+/-- crdt: importing the export of the empty pinset succeeds and leaves the cleaned (empty)
+    store, whatever the target held (was known finding K14a/K18 until 2096d62) -/
+theorem export_import_crdt_empty_ok (t : List Pin) :
+    ∃ js, exportStream (fromList []) = some js ∧ importStateCrdt (fromList t) js false = (.ok (fromList []), fromList []) :=
   ⟨[], rfl, rfl⟩
+
+/-- the crdt manager's import agrees with the raft manager's on every stream -/
+theorem importStateCrdt_eq (t : PinMap) (js : List JPin) (g : Bool) : importStateCrdt t js g = importState t js g := by
+  unfold importStateCrdt importState
+  cases js with
+  | nil => cases g <;> rfl
+  | cons j js' =>
+    cases importInto [] (j :: js') with
+    | none => rfl
+    | some m => cases g <;> rfl
+
+/-- export → crdt import reproduces the pinset under the same hypotheses as the raft manager -/
+theorem export_import_crdt_id_partial (g t listing : List Pin) (hw : ∀ p ∈ g, wfPin p = true)
+    (ho : ∀ p ∈ g, p.origins = []) (hl : listing.Perm (fromList g)) :
+    ∃ js, exportStream listing = some js ∧ importStateCrdt (fromList t) js false = (.ok (fromList g), fromList g) := by
+  obtain ⟨js, h1, h2⟩ := export_import_id_partial g t listing hw ho hl
+  exact ⟨js, h1, by rw [importStateCrdt_eq]; exact h2⟩
 
 /-! ## rotation -/
 
@@ -205,7 +224,7 @@ theorem bad_lines_skipped_partial (file : List Line) (hl : ∀ l ∈ file, l ≠
     simp [fileClauses, h]
 
 /-- the code really violates the full statement: an over-long line ends the reading and the
-    valid address after it is lost (known finding K14b) -/
+    valid address after it is lost (known finding K19) -/
 theorem bad_lines_skipped_full_fails : ¬ bad_lines_skipped_full := by
   intro h
   have := h [.long, .full 0 1]
